@@ -30,10 +30,12 @@ import (
 	"unicode"
 
 	"github.com/tsawler/tabula"
+	"github.com/tsawler/tabula/epubdoc"
 	"github.com/tsawler/tabula/htmldoc"
 	"github.com/tsawler/tabula/model"
 
 	"verifharness/fw"
+	"verifharness/gen/epubw"
 	"verifharness/gen/htmlw"
 )
 
@@ -291,10 +293,10 @@ func (cr *caseRun) readAll(r *htmldoc.Reader, order []int, entry string) (res [4
 }
 
 // check runs all oracles on the outputs of one entry point.
-func (cr *caseRun) check(entry string, res [4]views, content, protected []string, isContent, isProtected map[string]bool) {
+func (cr *caseRun) check(entry string, res [4]views, kinds int, content, protected []string, isContent, isProtected map[string]bool) {
 	var tokSeq [4][3][]string
 	for m := 0; m < 4; m++ {
-		for k := 0; k < 3; k++ {
+		for k := 0; k < kinds; k++ {
 			out := res[m].kind(k)
 			seq := fw.FindTokens(out)
 			tokSeq[m][k] = seq
@@ -315,7 +317,7 @@ func (cr *caseRun) check(entry string, res [4]views, content, protected []string
 		}
 	}
 	// mode None: content exactly once, in document order
-	for k := 0; k < 3; k++ {
+	for k := 0; k < kinds; k++ {
 		got := filter(tokSeq[0][k], isContent)
 		cr.count("exactly_once_checks", int64(len(content)))
 		if msg := compareExact(got, content); msg != "" {
@@ -330,7 +332,7 @@ func (cr *caseRun) check(entry string, res [4]views, content, protected []string
 		}
 	}
 	// monotone: each stricter mode is a subsequence of the next weaker one
-	for k := 0; k < 3; k++ {
+	for k := 0; k < kinds; k++ {
 		for m := 3; m >= 1; m-- {
 			cr.count("subsequence_checks", 1)
 			if ok, t := isSubseq(tokSeq[m][k], tokSeq[m-1][k]); !ok {
@@ -345,7 +347,7 @@ func (cr *caseRun) check(entry string, res [4]views, content, protected []string
 	}
 	// protected content: present once, same order, in every mode
 	for m := 0; m < 4; m++ {
-		for k := 0; k < 3; k++ {
+		for k := 0; k < kinds; k++ {
 			got := filter(tokSeq[m][k], isProtected)
 			cr.count("protected_checks", int64(len(protected)))
 			if msg := compareExact(got, protected); msg != "" {
@@ -387,7 +389,7 @@ func (cr *caseRun) check(entry string, res [4]views, content, protected []string
 					break
 				}
 			}
-			if presentDoc[u.Token] {
+			if kinds > 2 && presentDoc[u.Token] {
 				cr.count("decoded_text_comparisons", 1)
 				found := false
 				for _, e := range sqDoc {
@@ -409,11 +411,18 @@ func (cr *caseRun) check(entry string, res [4]views, content, protected []string
 func (cr *caseRun) sameAs(what string, got string, ref [4]views, kind int, allowed []int) {
 	seq := fw.FindTokens(got)
 	cr.count("entry_point_comparisons", 1)
+	var match []string
 	for _, m := range allowed {
 		if equalSeq(seq, fw.FindTokens(ref[m].kind(kind))) {
-			cr.see("facade_mode/"+what, modeNames[m])
-			return
+			match = append(match, modeNames[m])
 		}
+	}
+	if len(match) == 1 {
+		// only an unambiguous match tells which mode the entry point uses
+		cr.see("entry_point_mode/"+what, match[0])
+	}
+	if len(match) > 0 {
+		return
 	}
 	names := []string{}
 	for _, m := range allowed {
@@ -426,6 +435,199 @@ func (cr *caseRun) sameAs(what string, got string, ref [4]views, kind int, allow
 	}
 	cr.fail("entry/"+what, fmt.Sprintf("%s returns a token sequence that differs from htmldoc.OpenReader's for mode(s) %v of the same bytes%s", what, names, hint),
 		map[string]any{"got": fw.OneLine(got, 1200)})
+}
+
+type prepared struct {
+	cr                     *caseRun
+	content, protected     []string
+	isContent, isProtected map[string]bool
+	nExcl                  int
+}
+
+// prepare indexes the units of one document (or of the chapters of one book).
+func prepare(c *fw.Ctx, id string, docs ...*htmlw.Doc) *prepared {
+	all := &htmlw.Doc{}
+	for _, d := range docs {
+		all.Units = append(all.Units, d.Units...)
+	}
+	if len(docs) == 1 {
+		all = docs[0]
+	}
+	cr := &caseRun{c: c, id: id, d: all, unit: map[string]*htmlw.Unit{}, counts: map[string]int64{}, seen: map[[2]string]bool{}}
+	pr := &prepared{cr: cr, isContent: map[string]bool{}, isProtected: map[string]bool{}}
+	for _, u := range all.Units {
+		cr.unit[u.Token] = u
+		if u.Role.IsContent() {
+			pr.isContent[u.Token] = true
+			pr.content = append(pr.content, u.Token)
+		}
+		if u.Role == htmlw.Protected {
+			pr.isProtected[u.Token] = true
+			pr.protected = append(pr.protected, u.Token)
+		}
+		if u.Role == htmlw.Excludable {
+			pr.nExcl++
+		}
+		cr.count("units/"+u.Role.String(), 1)
+		cr.see("unit_kind/"+u.Role.String(), u.Kind)
+	}
+	for _, d := range docs {
+		for f := range d.Features {
+			cr.see("feature", f)
+		}
+	}
+	return pr
+}
+
+const opfTemplate = `<?xml version="1.0" encoding="UTF-8"?>
+<package xmlns="http://www.idpf.org/2007/opf" version="3.0" unique-identifier="bookid">
+<metadata xmlns:dc="http://purl.org/dc/elements/1.1/"><dc:identifier id="bookid">urn:uuid:3c1a1d2e-0000-4000-8000-00000000c019</dc:identifier><dc:title>Generated book</dc:title><dc:language>en</dc:language><meta property="dcterms:modified">2024-01-01T00:00:00Z</meta></metadata>
+<manifest>
+<item id="nav" href="nav.xhtml" media-type="application/xhtml+xml" properties="nav"/>
+%s</manifest>
+<spine>
+%s</spine>
+</package>
+`
+
+const navDoc = `<?xml version="1.0" encoding="UTF-8"?>
+<!DOCTYPE html>
+<html xmlns="http://www.w3.org/1999/xhtml" xmlns:epub="http://www.idpf.org/2007/ops"><head><title>Contents</title></head>
+<body><nav epub:type="toc"><ol>%s</ol></nav></body></html>
+`
+
+// runEpub: the same property through EPUB chapters. Each chapter is an XHTML
+// serialisation (well-formed XML) of a generated tree; the book must return,
+// for every mode, the chapters' token sequences one after the other.
+func runEpub(c *fw.Ctx, j int) {
+	id := fmt.Sprintf("epub:%d", j)
+	if !c.Want(id) {
+		return
+	}
+	r := c.Rand("epub", j)
+	tk := fw.NewTokens(c.Rand("epub", j, "tok"))
+	nch := 2 + r.Intn(2)
+	var docs []*htmlw.Doc
+	for k := 0; k < nch; k++ {
+		d := htmlw.Generate(c.Rand("epub", j, "chapter", k), tk, htmlw.Options{XHTML: true, Blocks: 3 + r.Intn(5)})
+		if err := d.Verify(); err != nil {
+			c.Count("generator_self_check_failed", 1)
+			c.Extra("generator_self_check_first_error", fmt.Sprintf("%s: %v", id, err))
+			return
+		}
+		docs = append(docs, d)
+	}
+	pr := prepare(c, id, docs...)
+	cr := pr.cr
+	defer cr.flush()
+	excl := 0
+	var man, spine, nav strings.Builder
+	members := []epubw.Member{{Name: "mimetype", Data: []byte("application/epub+zip"), Store: true},
+		{Name: "META-INF/container.xml", Data: epubw.ContainerXML("OEBPS/content.opf")}}
+	var chapterMembers []epubw.Member
+	htmls := map[string]any{}
+	for k, d := range docs {
+		excl += d.Excludable
+		name := fmt.Sprintf("text/ch%d.xhtml", k+1)
+		fmt.Fprintf(&man, "<item id=\"ch%d\" href=\"%s\" media-type=\"application/xhtml+xml\"/>\n", k+1, name)
+		fmt.Fprintf(&spine, "<itemref idref=\"ch%d\"/>\n", k+1)
+		fmt.Fprintf(&nav, "<li><a href=\"%s\">Chapter %d</a></li>", name, k+1)
+		chapterMembers = append(chapterMembers, epubw.Member{Name: "OEBPS/" + name, Data: d.HTML})
+		htmls[name] = string(d.HTML)
+	}
+	// the ZIP order of the content documents is not the reading order
+	r.Shuffle(len(chapterMembers), func(a, b int) { chapterMembers[a], chapterMembers[b] = chapterMembers[b], chapterMembers[a] })
+	members = append(members, epubw.Member{Name: "OEBPS/content.opf", Data: []byte(fmt.Sprintf(opfTemplate, man.String(), spine.String()))},
+		epubw.Member{Name: "OEBPS/nav.xhtml", Data: []byte(fmt.Sprintf(navDoc, nav.String()))})
+	members = append(members, chapterMembers...)
+	book := epubw.Zip(members)
+	c.Case("epub|"+string(book), excl >= 1 && len(pr.protected) >= 3)
+	cr.detail = map[string]any{"chapters": htmls}
+	cr.see("feature", "epub-chapters")
+
+	c.Guard("c19-epub", id, cr.detail, func() {
+		// per chapter: what htmldoc returns for the same bytes
+		var per [][4]views
+		for k, d := range docs {
+			rd, err := htmldoc.OpenReader(bytes.NewReader(d.HTML))
+			if err != nil {
+				cr.fail("error/OpenReader", fmt.Sprintf("htmldoc.OpenReader(chapter %d): %v", k+1, err), nil)
+				return
+			}
+			res, ok := cr.readAll(rd, r.Perm(4), fmt.Sprintf("htmldoc.OpenReader(chapter %d)", k+1))
+			if !ok {
+				return
+			}
+			per = append(per, res)
+		}
+		er, err := epubdoc.OpenReader(bytes.NewReader(book), int64(len(book)))
+		if err != nil {
+			cr.fail("error/epub", fmt.Sprintf("epubdoc.OpenReader: %v", err), nil)
+			return
+		}
+		defer er.Close()
+		var res [4]views
+		for _, m := range r.Perm(4) {
+			o := epubdoc.ExtractOptions{NavigationExclusion: int(modes[m])}
+			if res[m].text, err = er.TextWithOptions(o); err != nil {
+				cr.fail("error/epub", fmt.Sprintf("epubdoc TextWithOptions(%s): %v", modeNames[m], err), nil)
+				return
+			}
+			if res[m].md, err = er.MarkdownWithOptions(o); err != nil {
+				cr.fail("error/epub", fmt.Sprintf("epubdoc MarkdownWithOptions(%s): %v", modeNames[m], err), nil)
+				return
+			}
+		}
+		cr.check("epubdoc.OpenReader", res, 2, pr.content, pr.protected, pr.isContent, pr.isProtected)
+		// chapter by chapter, in spine order, same sequences as htmldoc on the chapter bytes
+		var concat [4]views
+		for m := 0; m < 4; m++ {
+			for k := 0; k < 2; k++ {
+				var want []string
+				for _, p := range per {
+					want = append(want, fw.FindTokens(p[m].kind(k))...)
+				}
+				cr.count("entry_point_comparisons", 1)
+				if !equalSeq(fw.FindTokens(res[m].kind(k)), want) {
+					cr.fail("entry/epub-vs-html/"+kindNames[k], fmt.Sprintf("epubdoc %s(%s) does not return the chapters' htmldoc token sequences in spine order", kindNames[k], modeNames[m]),
+						map[string]any{"epub": strings.Join(fw.FindTokens(res[m].kind(k)), " "), "chapters": strings.Join(want, " ")})
+				}
+			}
+			for _, p := range per {
+				concat[m].text += p[m].text + "\n"
+				concat[m].md += p[m].md + "\n"
+				concat[m].doc = append(concat[m].doc, p[m].doc...)
+			}
+		}
+		if cr.failed {
+			return
+		}
+		any4 := []int{0, 1, 2, 3}
+		if dd, err := er.Document(); err != nil {
+			cr.fail("error/epub", fmt.Sprintf("epubdoc Document: %v", err), nil)
+		} else {
+			cr.sameAs("epubdoc.Reader.Document", strings.Join(docTexts(dd), "\n"), concat, 2, any4)
+		}
+		if t, err := er.Text(); err == nil {
+			cr.sameAs("epubdoc.Reader.Text", t, concat, 0, any4)
+		}
+		path := filepath.Join(c.Work, fmt.Sprintf("c19-%d.epub", j))
+		if err := os.WriteFile(path, book, 0o644); err != nil {
+			c.Inconclusive("cannot write scratch file: " + err.Error())
+			return
+		}
+		defer os.Remove(path)
+		if t, _, err := tabula.Open(path).Text(); err != nil {
+			cr.fail("error/facade", fmt.Sprintf("tabula.Open(.epub).Text: %v", err), nil)
+		} else {
+			cr.sameAs("tabula.Open(epub).Text", t, concat, 0, any4)
+		}
+		if t, _, err := tabula.Open(path).ToMarkdown(); err != nil {
+			cr.fail("error/facade", fmt.Sprintf("tabula.Open(.epub).ToMarkdown: %v", err), nil)
+		} else {
+			cr.sameAs("tabula.Open(epub).ToMarkdown", t, concat, 1, any4)
+		}
+	})
 }
 
 func runCase(c *fw.Ctx, i int, opt htmlw.Options) {
@@ -441,35 +643,15 @@ func runCase(c *fw.Ctx, i int, opt htmlw.Options) {
 		c.Extra("generator_self_check_first_error", fmt.Sprintf("%s: %v", id, err))
 		return
 	}
-	cr := &caseRun{c: c, id: id, d: d, unit: map[string]*htmlw.Unit{}, counts: map[string]int64{}, seen: map[[2]string]bool{}}
+	pr := prepare(c, id, d)
+	cr := pr.cr
 	defer cr.flush()
-	isContent, isProtected := map[string]bool{}, map[string]bool{}
-	var content, protected []string
-	nExcl := 0
-	for _, u := range d.Units {
-		cr.unit[u.Token] = u
-		if u.Role.IsContent() {
-			isContent[u.Token] = true
-			content = append(content, u.Token)
-		}
-		if u.Role == htmlw.Protected {
-			isProtected[u.Token] = true
-			protected = append(protected, u.Token)
-		}
-		if u.Role == htmlw.Excludable {
-			nExcl++
-		}
-		cr.count("units/"+u.Role.String(), 1)
-		cr.see("unit_kind/"+u.Role.String(), u.Kind)
-	}
-	for f := range d.Features {
-		cr.see("feature", f)
-	}
+	content, protected := pr.content, pr.protected
 	nontrivial := d.Excludable >= 1 && len(protected) >= 3
 	c.Case(string(d.HTML), nontrivial)
 	cr.detail = map[string]any{"html": string(d.HTML), "features": d.FeatureList(), "malformed_allowed": opt.Malformed}
 	c.Sample(map[string]any{"id": id, "bytes": len(d.HTML), "content_units": len(content), "protected": len(protected),
-		"excludable_units": nExcl, "excludable_subtrees": d.Excludable, "features": d.FeatureList()})
+		"excludable_units": pr.nExcl, "excludable_subtrees": d.Excludable, "features": d.FeatureList()})
 
 	c.Guard("c19", id, cr.detail, func() {
 		// entry point 1: htmldoc.OpenReader
@@ -484,22 +666,22 @@ func runCase(c *fw.Ctx, i int, opt htmlw.Options) {
 		if !ok {
 			return
 		}
-		cr.check("htmldoc.OpenReader", res, content, protected, isContent, isProtected)
+		cr.check("htmldoc.OpenReader", res, 3, pr.content, pr.protected, pr.isContent, pr.isProtected)
 		if len(res[3].text) < len(res[0].text) {
 			cr.count("docs_where_filtering_removed_text", 1)
 		}
 
-		// default-option methods = some mode of the same reader (documented: Standard)
+		// default-option methods = some mode of the same reader (documented: Standard; the property does not pin which)
 		rd2, err := htmldoc.OpenReader(bytes.NewReader(d.HTML))
 		if err == nil {
 			if t, err := rd2.Text(); err == nil {
-				cr.sameAs("htmldoc.Reader.Text()", t, res, 0, []int{2})
+				cr.sameAs("htmldoc.Reader.Text()", t, res, 0, []int{0, 1, 2, 3})
 			}
 			if t, err := rd2.Markdown(); err == nil {
-				cr.sameAs("htmldoc.Reader.Markdown()", t, res, 1, []int{2})
+				cr.sameAs("htmldoc.Reader.Markdown()", t, res, 1, []int{0, 1, 2, 3})
 			}
 			if dd, err := rd2.Document(); err == nil {
-				cr.sameAs("htmldoc.Reader.Document()", strings.Join(docTexts(dd), "\n"), res, 2, []int{2})
+				cr.sameAs("htmldoc.Reader.Document()", strings.Join(docTexts(dd), "\n"), res, 2, []int{0, 1, 2, 3})
 			}
 			rd2.Close()
 		}
@@ -621,6 +803,7 @@ func runFixed(c *fw.Ctx, k int) {
 				if msg := compareExact(fw.FindTokens(out), want); msg != "" {
 					c.Fail("", "fixed/"+f.name+"/"+kindNames[kk], id, fmt.Sprintf("%s(%s) of the fixed document %q (no excludable markup at all): %s", kindNames[kk], modeNames[m], f.name, msg),
 						map[string]any{"html": src, "output": out})
+					return // one report per fixed document
 				}
 			}
 		}
@@ -642,10 +825,12 @@ func Run(c *fw.Ctx) {
 	for k := range fixedDocs {
 		runFixed(c, k)
 	}
-	n := c.N(3000, 100000)
+	n := c.N(3000, 80000)
 	c.Parallel(n, func(i int) {
-		runCase(c, i, htmlw.Options{Malformed: i%2 == 1})
+		runCase(c, i, htmlw.Options{Malformed: i%2 == 1, XHTML: i%10 == 0})
 	})
+	ne := c.N(300, 8000)
+	c.Parallel(ne, func(j int) { runEpub(c, j) })
 	if bad := c.Counter("generator_self_check_failed"); bad > 0 {
 		c.Inconclusive(fmt.Sprintf("%d generated documents were not parsed by the independent HTML5 parser into the tree the generator assumed", bad))
 	}
